@@ -342,6 +342,26 @@ class _RawConfigParser(configparser.RawConfigParser):
       return False
     return option in self._sections[section]
 
+  def get(self, section, option, **kwargs):
+    """Return the value of `option` defined in `section` itself.
+
+    Place-holders of the form ${NAME} are replaced by values from [Variables] (as documented),
+    variables do not stand in for options that a section does not define."""
+    if section == self.default_section or not section in self._sections:
+      return super(_RawConfigParser, self).get(section, option, **kwargs)
+    option = self.optionxform(option)
+    sectiondict = self._sections[section]
+    if not option in sectiondict:
+      if 'fallback' in kwargs:
+        return kwargs['fallback']
+      raise configparser.NoOptionError(option, section)
+    value = sectiondict[option]
+    if kwargs.get('raw', False) or value is None:
+      return value
+    # [Variables] takes precedence over same named options of the section when resolving ${NAME}
+    lookup = collections.ChainMap(self._defaults, sectiondict)
+    return self._interpolation.before_get(self, section, option, value, lookup)
+
 class ConfigParser(object):
   """Performs initial stage (tokenizing) of generating a potential model
   suitable for tabulation functions."""
